@@ -143,6 +143,37 @@ pub(crate) fn sample_request_as_json() -> String {
     .unwrap()
 }
 
+/// The offsets in a request come straight from the client. Slicing
+/// the input at an offset that's out of range or inside a multi-byte
+/// character would panic in the lexer, so reject those requests.
+fn invalid_offsets_response(
+    input: &str,
+    offset: usize,
+    end_offset: usize,
+    id: Option<RequestId>,
+) -> Option<Response> {
+    if offset <= end_offset
+        && end_offset <= input.len()
+        && input.is_char_boundary(offset)
+        && input.is_char_boundary(end_offset)
+    {
+        return None;
+    }
+
+    Some(Response {
+        kind: ResponseKind::MalformedRequest {
+            message: format!(
+                "Invalid offsets {}..{} for an input of {} bytes.",
+                offset,
+                end_offset,
+                input.len()
+            ),
+        },
+        position: None,
+        id,
+    })
+}
+
 fn handle_load_request(
     id: Option<usize>,
     path: &Path,
@@ -151,6 +182,10 @@ fn handle_load_request(
     end_offset: usize,
     env: &mut Env,
 ) -> Response {
+    if let Some(response) = invalid_offsets_response(input, offset, end_offset, id) {
+        return response;
+    }
+
     let abs_path = to_abs_path(path);
 
     let vfs_path = env.vfs.insert(Rc::new(abs_path.clone()), input.to_owned());
@@ -673,13 +708,19 @@ fn handle_run_eval_request(
         }
     };
 
+    let offset = offset.unwrap_or(0);
+    let end_offset = end_offset.unwrap_or(input.len());
+    if let Some(response) = invalid_offsets_response(input, offset, end_offset, id) {
+        return response;
+    }
+
     let vfs_path = env.vfs.insert(Rc::new(path.clone()), input.to_owned());
     let (items, errors) = parse_toplevel_items_from_span(
         &vfs_path,
         input,
         &mut env.id_gen,
-        offset.unwrap_or(0),
-        end_offset.unwrap_or(input.len()),
+        offset,
+        end_offset,
     );
 
     if !errors.is_empty() {
